@@ -454,6 +454,16 @@ func (se *ShapeEval) stmts(fr *shapeFrame, list []ast.Stmt) {
 		if fr.hasRet {
 			return
 		}
+		// `if c { …; return X }` followed by the rest of a function body is `if c { …; return X } else { rest }`
+		if is, ok := s.(*ast.IfStmt); ok && is.Else == nil && fr.inLoop == 0 && i+1 < len(list) && len(is.Body.List) > 0 {
+			if _, isRet := is.Body.List[len(is.Body.List)-1].(*ast.ReturnStmt); isRet {
+				if _, known := se.configValue(fr, is.Cond); !known {
+					whole := &ast.IfStmt{If: is.If, Init: is.Init, Cond: is.Cond, Body: is.Body, Else: &ast.BlockStmt{Lbrace: list[i+1].Pos(), List: list[i+1:], Rbrace: list[len(list)-1].End()}}
+					se.stmt(fr, whole)
+					return
+				}
+			}
+		}
 		// `if c { continue }` followed by the rest of a loop body is `if !c { rest }`
 		if is, ok := s.(*ast.IfStmt); ok && is.Else == nil && is.Init == nil && len(is.Body.List) == 1 && fr.inLoop > 0 {
 			if br, ok := is.Body.List[0].(*ast.BranchStmt); ok && br.Tok == token.CONTINUE && br.Label == nil {
@@ -580,16 +590,24 @@ func (se *ShapeEval) stmt(fr *shapeFrame, s ast.Stmt) {
 			return
 		}
 		before := se.snap(fr)
+		retBefore := fr.ret
 		se.stmts(fr, x.Body.List)
 		thenRet := fr.hasRet
+		retThen := fr.ret
 		thenSnap := se.snap(fr)
 		se.restore(fr, before)
 		fr.hasRet = false
+		fr.ret = retBefore
 		if x.Else != nil {
 			se.stmt(fr, x.Else)
 		}
 		elseRet := fr.hasRet
+		retElse := fr.ret
 		elseSnap := se.snap(fr)
+		if thenRet && elseRet && (retThen != nil || retElse != nil) {
+			// both arms return a string: the function's value is the alternative of the two
+			fr.ret = se.mergeAlt(fr, x.Cond, retThen, retElse)
+		}
 		if thenRet || elseRet {
 			// early returns inside conditionals are outside the recognised subset unless no string state differs
 			if thenRet != elseRet {
